@@ -29,10 +29,12 @@ COQ_TARGETS = ["Model/ThreadsRun.vo"]
 WAIT = 10.0          # seconds: every blocking wait in the schedulers
 FLAG_NAMES = ["enter_atomic", "exit_atomic", "current_atomic", "inherit_atomic",
               "register_default_atomic", "register_rmw_atomic"]
-# hypotheses the theorems of Properties/C15.v actually take
-NEEDED = {"inherit_atomic": ["C15_inherit_snapshot"],
-          "current_atomic": ["C15_request_served_by_own_runtime"],
-          "register_rmw_atomic": ["C15_register_all_present"]}
+# hypotheses the theorems of Properties/C15.v take (in argument order)
+OBLIG = {"C15_enter_exit_restores": ["enter_atomic", "exit_atomic"],
+         "C15_inherit_snapshot": ["inherit_atomic"],
+         "C15_request_served_by_own_runtime": ["current_atomic"],
+         "C15_register_all_present": ["register_rmw_atomic"]}
+NEEDED = {f for fs in OBLIG.values() for f in fs}
 
 
 class ScanError(Exception):
@@ -265,23 +267,24 @@ def coq_flags(flags):
 
 
 def write_obligations(ctx, flags):
-    """Obligations_C15.v: the scanned flags + one lemma per hypothesis the theorems take, closed by
-    reflexivity, + the theorems instantiated at the scanned flags.  Each obligation is compiled in its
-    own file so that the failing ones can be named."""
+    """Obligations_C15_<theorem>.v: the scanned flags, one lemma per hypothesis of the theorem closed by
+    reflexivity, and the theorem instantiated at the scanned flags.  One file per theorem so that the
+    failing ones can be named."""
     results = {}
-    for flag, thms in NEEDED.items():
+    for th, fls in OBLIG.items():
         body = ["From Coq Require Import List NArith Bool.\n",
                 "From LV Require Import Model.Threads Model.ThreadsRun Properties.C15.\n",
-                f"Definition scanned_flags : flags := {coq_flags(flags)}.\n",
-                f"Lemma ob_{flag} : {flag} scanned_flags = true.\nProof. reflexivity. Qed.\n"]
-        for th in thms:
-            body.append(f"Definition {th}_at_source := fun fpf valf => {th} fpf valf scanned_flags ob_{flag}.\n"
-                        f"Check {th}_at_source.\n")
-        name = f"Obligations_C15_{flag}.v"
+                f"Definition scanned_flags : flags := {coq_flags(flags)}.\n"]
+        for f in fls:
+            body.append(f"Lemma ob_{f} : {f} scanned_flags = true.\nProof. reflexivity. Qed.\n")
+        body.append(f"Definition {th}_at_source := fun fpf valf => {th} fpf valf scanned_flags "
+                    + " ".join(f"ob_{f}" for f in fls) + f".\nCheck {th}_at_source.\n")
+        name = f"Obligations_C15_{th}.v"
         with open(ctx.scratch.path(name), "w") as fh:
             fh.write("".join(body))
         rc, out, err = lib.coqc(name, ctx.scratch.dir, timeout=300)
-        results[flag] = dict(ok=rc == 0, theorems=thms, error=None if rc == 0 else err[-600:])
+        results[th] = dict(ok=rc == 0, flags=fls, false_flags=[f for f in fls if not flags[f]],
+                           error=None if rc == 0 else err[-600:])
     return results
 
 
@@ -1154,13 +1157,14 @@ def run(ctx):
         mism.append(dict(where="generated obligation (source scan refused: shape of the shared accesses not recognised)",
                          error=str(e), impl="unrecognised", model="accesses of _RUNTIMES/_PREVIOUS/self.lookup inside their locks"))
     obl = write_obligations(ctx, flags)
-    for flag, r in obl.items():
+    for th, r in obl.items():
         if not r["ok"]:
-            for th in r["theorems"]:
-                mism.append(dict(where=f"generated obligation {th}", hypothesis=f"{flag} scanned_flags = true",
-                                 impl=f"{flag} = false in the source (an access is outside its lock)",
-                                 model="true", accesses=[d for v in scan.get("detail", {}).values() for d in v if not d["locked"]][:6],
-                                 error=r["error"]))
+            mism.append(dict(where=f"generated obligation {th}",
+                             hypothesis=" /\\ ".join(f"{f} scanned_flags = true" for f in r["flags"]),
+                             impl=f"{r['false_flags']} false in the source (a shared access is outside its lock)",
+                             model="true",
+                             accesses=[dict(d, function=fn) for fn, v in scan.get("detail", {}).items() for d in v if not d["locked"]][:6],
+                             error=r["error"]))
     for n in FLAG_NAMES:
         if not flags[n] and n not in NEEDED:
             notes.append(f"{n} is false in the source; no theorem takes it as a hypothesis (isolation is proved for all flag "
@@ -1182,7 +1186,7 @@ def run(ctx):
         for sched in ils:
             do_op_run(C, "op/" + name, progs, sched, use_dataset=(name == "eval"))
     exhaustive_sets = len(FIXED_OP)
-    for i in range(10 if quick else 60):
+    for i in range(25 if quick else 80):
         kinds = rng.choice([["handler"], ["handler"], ["register"], ["eval"], ["handler", "register", "eval"]])
         progs = gen_progs(rng, rng.choice([2, 2, 3]), 3, kinds)
         C.count_ops(progs)
@@ -1191,7 +1195,7 @@ def run(ctx):
             ils = rng.sample(ils, 60 if quick else 400)
         for sched in ils:
             do_op_run(C, "op/small-" + "+".join(kinds), progs, sched)
-    for i in range(250 if quick else 4000):
+    for i in range(1000 if quick else 6000):
         kinds = rng.choice([["handler"], ["handler", "register", "eval"], ["register", "eval"]])
         progs = gen_progs(rng, rng.choice([2, 3, 3]), rng.choice([4, 6, 8]), kinds)
         C.count_ops(progs)
